@@ -1,6 +1,8 @@
 """Dev tool: copy verified sub-agent mutations from /tmp/seed/<P>/out/m* into /verif/seeded, given a verify log."""
 import json, os, shutil, re, sys, subprocess
 head = subprocess.run(["git","-C","/repo","rev-parse","--short","HEAD"],capture_output=True,text=True).stdout.strip()
+SRC = os.environ.get("SEED_SRC", "/tmp/seed/{pid}/out/{k}")   # round 2: SEED_SRC=/tmp/seed2out/{pid}/{k} SEED_TAG=r2
+TAG = os.environ.get("SEED_TAG", "")
 for log in sys.argv[1:]:
     for l in open(log):
         m = re.match(r"(C\d+)/(m\d) clean_exit=(\d+) mutated_exit=(\d+) tests: (.*)", l.strip())
@@ -8,11 +10,11 @@ for log in sys.argv[1:]:
         pid, k, ce, me, tests = m.groups()
         if ce != '0' or me == '0' or not tests.startswith('66 passed'):
             print("skip", pid, k, l.strip()); continue
-        src = f"/tmp/seed/{pid}/out/{k}"; dst = f"/verif/seeded/{pid}-{k}"
+        src = SRC.format(pid=pid, k=k); dst = f"/verif/seeded/{pid}-{TAG}{k}"
         os.makedirs(dst, exist_ok=True)
         shutil.copy(src + "/patch.diff", dst); shutil.copy(src + "/demo.py", dst)
         meta = json.load(open(src + "/meta.json"))
-        out = {"property": pid, "id": f"{pid}-{k}", "summary": meta.get("summary"), "why_breaks": meta.get("why_breaks"),
+        out = {"property": pid, "id": f"{pid}-{TAG}{k}", "summary": meta.get("summary"), "why_breaks": meta.get("why_breaks"),
                "needs_to_manifest": meta.get("needs_to_manifest"), "files": meta.get("files"),
                "author": "independent sub-agent given only the property text and a scratch worktree",
                "confirmed_by_me": {"base_commit": head, "ran": ["git apply patch.diff in a scratch worktree of /repo HEAD",
